@@ -23,6 +23,7 @@ def run(chk, tier):
     for c in configs:
         prog = model.Program(fx[c], c)
         layout_terms.agreement(chk, prog, c)
+        layout_terms.meta_written_only_at_allocation(chk, prog, c)
         layout_terms.flag_encoding(chk, prog, c)
         layout_terms.value_layouts(chk, prog, c)
         rules_ptr.cast_only(chk, prog, config=c)
